@@ -344,3 +344,54 @@ def proof_coverage(info: dict, prop: str) -> dict:
         "broken_obligations": info.get("broken", []),
         **({"leanchecker": info["leanchecker"]} if "leanchecker" in info else {}),
     }
+
+
+# ---------------------------------------------------------------- killable worker processes
+
+def run_killable(fn, jobs: list, per_job_s: float, ncpu: int | None = None):
+    """fn over jobs in at most ncpu daemon child processes, each with a deadline after which it is killed (a loop inside a C
+    extension cannot be interrupted by a signal handler).  Yields ("ok", result), ("hung", (job, pid)) or ("died", (job, why))."""
+    import multiprocessing as _mp
+    ncpu = ncpu or NCPU
+    ctx = _mp.get_context("fork")
+    pending = list(reversed(jobs))
+    running: list = []
+
+    def child(job, conn):
+        try:
+            conn.send(("ok", fn(job)))
+        except BaseException as e:  # noqa: BLE001
+            import traceback
+            conn.send(("exc", f"{type(e).__name__}: {e}\n{traceback.format_exc()[-1500:]}"))
+        finally:
+            conn.close()
+
+    while pending or running:
+        while pending and len(running) < ncpu:
+            job = pending.pop()
+            a, b = ctx.Pipe(duplex=False)
+            pr = ctx.Process(target=child, args=(job, b), daemon=True)
+            pr.start()
+            b.close()
+            running.append((pr, a, job, time.time()))
+        time.sleep(0.05)
+        still = []
+        for pr, a, job, t0 in running:
+            if a.poll(0):
+                try:
+                    kind, res = a.recv()
+                except EOFError:
+                    kind, res = "exc", "worker died"
+                pr.join()
+                yield ("ok", res) if kind == "ok" else ("died", (job, res))
+            elif not pr.is_alive():
+                pr.join()
+                yield "died", (job, "worker died without an answer (killed for memory?)")
+            elif time.time() - t0 > per_job_s:
+                pid = pr.pid
+                pr.kill()
+                pr.join()
+                yield "hung", (job, pid)
+            else:
+                still.append((pr, a, job, t0))
+        running = still
